@@ -77,7 +77,8 @@ def sort_phase(run, tier, wd, binary):
     mp = 4 if tier == "quick" else 5
     vlib.write_cfg(os.path.join(sd, "mo.cfg"), constants=dict(MaxParts=mp, OutFile='"cases.ndjson"'), spec="Spec",
                    invariants=["StepwiseSorted", "NeverStuck"])
-    r = vlib.run_tlc(sd, "MCOrdering", "mo.cfg", workers=4, timeout=1200, jvm=vlib.JVM_BIG)
+    # (16^5 sequences at MaxParts = 5: above TLC's default bound on enumerated sets)
+    r = vlib.run_tlc(sd, "MCOrdering", "mo.cfg", workers=4, timeout=1800, jvm=vlib.JVM_BIG, extra=["-maxSetSize", "4000000"])
     run.add_model_run("Ordering: stepwise = global formulation; export of all sequences up to %d participants" % mp, r)
     if not r.ok:
         raise vlib.Infra("MCOrdering failed: %s" % r.violated)
